@@ -16,6 +16,9 @@ Definition has_1pc pre T o := exists r ks m, In (EPwReply r T ks (PwOk m o)) pre
 Definition fb_reason pre T :=
   (exists r p ks o m f secs, In (EPwSend r T p ks false o m f secs) pre) \/
   (exists r ks o, In (EPwReply r T ks (PwOk 0 o)) pre) \/ has_onepc pre T.
+Definition fb1_reason pre T :=
+  (exists r p ks a m f secs, In (EPwSend r T p ks a false m f secs) pre) \/
+  (exists r ks m, In (EPwReply r T ks (PwOk m 0)) pre).
 Definition has_minc pre T m := exists r ks o, In (EPwReply r T ks (PwOk m o)) pre.
 
 Lemma has_pwok_mono pre l T k : has_pwok pre T k -> has_pwok (pre ++ l) T k.
@@ -39,7 +42,13 @@ Proof.
   - right. left. exists r, ks, o. apply in_or_app; auto.
   - right. right. apply has_onepc_mono. exact H.
 Qed.
-#[export] Hint Resolve has_minc_mono fb_reason_mono : core.
+Lemma fb1_reason_mono pre l T : fb1_reason pre T -> fb1_reason (pre ++ l) T.
+Proof.
+  intros [(r & p & ks & a & m & f & secs & H) | (r & ks & m & H)].
+  - left. exists r, p, ks, a, m, f, secs. apply in_or_app; auto.
+  - right. exists r, ks, m. apply in_or_app; auto.
+Qed.
+#[export] Hint Resolve has_minc_mono fb_reason_mono fb1_reason_mono : core.
 #[export] Hint Resolve has_pwok_mono has_cmok_mono has_async_mono has_onepc_mono has_gone_mono has_1pc_mono : core.
 
 Record HT (T : N) (pre : list event) (c : crec) : Prop := {
@@ -58,7 +67,8 @@ Record HT (T : N) (pre : list event) (c : crec) : Prop := {
   t_rb : cn c FPcRb <> 0 -> has_gone pre T (cn c FPrim);
   t_pws : cn c FPwSent = N.of_nat (count_if (is_pw_send T) pre);
   t_pwr : cn c FPwRep = N.of_nat (count_if (is_pw_reply T) pre);
-  t_minc : forall r ks m o, In (EPwReply r T ks (PwOk m o)) pre -> m <= cn c FMinc;
+  t_minc : forall r ks m o, In (EPwReply r T ks (PwOk m o)) pre ->
+           (cn c FHasm = 0 \/ exists k, In k ks /\ In k (c_lm c)) -> m <= cn c FMinc;
   t_1pc : cn c F1pcTs <> 0 -> has_1pc pre T (cn c F1pcTs);
   t_dead : forall r ks, In (ERbSend r T ks) pre -> cn c FDead <> 0;
   t_cmts : cn c FHasm <> 0 -> forall r C ks, In (ECmSend r T C ks) pre -> T < C;
@@ -72,7 +82,8 @@ Record HT (T : N) (pre : list event) (c : crec) : Prop := {
   t_kneg : forall k, kcnt c KNeg k = N.of_nat (sum_of (pw_negreply_occ T k) pre);
   t_fb : cn c FFb <> 0 -> fb_reason pre T;
   t_minc2 : cn c FMinc <> 0 -> has_minc pre T (cn c FMinc);
-  t_primlk : forall p ms, In (EMutations T p ms) pre -> In p (lock_keys ms) }.
+  t_primlk : forall p ms, In (EMutations T p ms) pre -> In p (lock_keys ms);
+  t_fb1 : cn c FFb1 <> 0 -> fb1_reason pre T }.
 
 Lemma fb_true c f : fb c f = true <-> cn c f <> 0.
 Proof. unfold fb. rewrite negb_true_iff, N.eqb_neq. tauto. Qed.
@@ -124,7 +135,7 @@ Ltac snoc_other H Hne :=
 
 Lemma HT_frame T pre c e : txn_ev e <> Some T -> HT T pre c -> HT T (pre ++ [e]) c.
 Proof.
-  intros Hne [C1 C2 C3 C4 C5 C6 C7 C8 C9 C10 C11 C12 C13 C14 C15 C16 C17 C18 C19 C20 C21 C22 C23 C24 C25].
+  intros Hne [C1 C2 C3 C4 C5 C6 C7 C8 C9 C10 C11 C12 C13 C14 C15 C16 C17 C18 C19 C20 C21 C22 C23 C24 C25 C26].
   constructor; auto.
   - intros p ms H. snoc_other H Hne. eauto.
   - intros Hh H0 r C ks H. snoc_other H Hne. eauto.
@@ -135,7 +146,7 @@ Proof.
   - intros Hh. rewrite count_if_snoc, notT_pc_reply, Nat.add_0_r; auto.
   - rewrite count_if_snoc, notT_pw_send, Nat.add_0_r; auto.
   - rewrite count_if_snoc, notT_pw_reply, Nat.add_0_r; auto.
-  - intros r ks m o H. snoc_other H Hne. eauto.
+  - intros r ks m o H Hx. snoc_other H Hne. eauto.
   - intros r ks H. snoc_other H Hne. eauto.
   - intros Hh r C ks H. snoc_other H Hne. eauto.
   - intros pre1 pre2 cz Hd Hno. apply snoc_split in Hd.
@@ -152,7 +163,7 @@ Qed.
 (* ---- changes of fields the invariant does not read ---- *)
 Definition tracked (f : fld) : bool :=
   match f with
-  | FCalled | FCausal | FWm | FHasm | FPrim | FTriedA | FTried1 | FFb | FPwSent | FPwRep | FMinc | F1pcTs
+  | FCalled | FCausal | FWm | FHasm | FPrim | FTriedA | FTried1 | FFb | FFb1 | FPwSent | FPwRep | FMinc | F1pcTs
   | FPcSent | FPcNeg | FPcRep | FPcOk | FPcRb => true
   | _ => false
   end.
@@ -169,7 +180,7 @@ Qed.
 
 Lemma HT_untracked T pre c c' : tr_same c c' -> HT T pre c -> HT T pre c'.
 Proof.
-  intros (E & Elm & Epw & Eks & Ekn & Ed) [C1 C2 C3 C4 C5 C6 C7 C8 C9 C10 C11 C12 C13 C14 C15 C16 C17 C18 C19 C20 C21 C22 C23 C24 C25].
+  intros (E & Elm & Epw & Eks & Ekn & Ed) [C1 C2 C3 C4 C5 C6 C7 C8 C9 C10 C11 C12 C13 C14 C15 C16 C17 C18 C19 C20 C21 C22 C23 C24 C25 C26].
   constructor; rewrite ?Elm, ?Epw;
     repeat match goal with |- context [cn c' ?f] =>
              lazymatch f with FDead => fail | _ => rewrite (E f eq_refl) end end; auto.
